@@ -1,5 +1,5 @@
 CONSTANTS MaxRow = 1048576 MaxCol = 16384 Wide = FALSE MaxOpts = 0 MaxSst = 0 MaxCells = 3 UseBlock = FALSE MaxAttrs = 0
   Variants = "pos" EmitReplay = FALSE
 SPECIFICATION MCSpec
-INVARIANTS DecodeTotal KindByType PositionsImplied XLemmas
+INVARIANTS DecodeTotal KindByType PositionsImplied XLemmas FmtLemmas
 CHECK_DEADLOCK FALSE
